@@ -68,7 +68,7 @@ def generate(rng, i, tier):
                 continue
             fi, m = prev["file"], prev["member"]
         else:
-            m = gen.gen_member(rng, ["id"] + [str(c) for c in range(1, ncol)], len(files[fi]["rows"]), None, max_comps=4, zoo_p=0.6, zoo_pool=gen.ZOO_SAFE)
+            m = gen.gen_member(rng, ["id"] + [str(c) for c in range(1, ncol)], len(files[fi]["rows"]), None, max_comps=3, zoo_p=0.85, zoo_pool=gen.ZOO_SAFE, zoo_n=(2, 5))
             if rng.random() < 0.2:
                 # append()/replace() change the headers or the line in place: nothing of that may survive into another job
                 m["comps"].insert(rng.randint(0, len(m["comps"])), gen.zoo_comp(rng, ["id"] + [str(c) for c in range(1, ncol)], 40 + j, gen.ZOO_REWRITE))
